@@ -179,7 +179,7 @@ CHECKS = {
         "technique": "property-based testing (rapid): generated program x schedule x 1-3 interruptions at generated moments; fault injection at the level of the pipestance object (abandon + re-attach, as a restarted mrp does) with a generated fate for every job in flight; differential against the reference model and an undisturbed run of the same program",
         "level_text": ("Programs of the C01 generator (<= 60 jobs) x schedules x interruptions: the Pipestance object is abandoned between any two harness actions (after a job wrote its "
                        "completion marker but before mrp refreshed, between refresh and step, right after dynamic forks were expanded, after the final VDR pass, after post-processing); every job in "
-                       "flight is left queued, running with a dead process (pid in _jobinfo as the job monitor records it), dead after writing _outs, finished without mrp having noticed, or alive "
+                       "flight is left queued, running with a dead process (pid in _jobinfo as the job monitor records it), dead after writing _outs, killed with the error recorded by its monitor, finished without mrp having noticed, or alive "
                        "(it finishes after the restart); the stale _lock is removed and a new Pipestance is attached with the same invocation (Reset + RestartLocalJobs, what mrp does).  Oracle: "
                        "the re-attach is accepted, the run completes, the final outputs equal the reference model's, no job whose completion was recorded before an interruption is handed to the "
                        "job manager again, every job still receives the arguments the model predicts, and the outputs record after the final cleanup equals that of an undisturbed run. Exploration."),
@@ -189,7 +189,7 @@ CHECKS = {
                  "classes: fate of in-flight jobs, number of interruptions, during-cleanup / after-cleanup."),
         "assumptions": _SEM_ASSUME + ["a job that is running records its pid in _jobinfo and the job manager removes _queued_locally when it starts the process, as the local job manager and mrjob do"],
         "units": [U("props/run", "TestInterrupt", (800, 10), (15000, 10))],
-        "floors": {"quick": {"inside-run": 1500, "fate:queued": 300, "fate:dead-running": 300, "fate:dead-after-outs": 300, "fate:finished-unnoticed": 300, "fate:alive": 300, "fate:during-cleanup": 300, "fate:after-cleanup": 300}},
+        "floors": {"quick": {"inside-run": 1500, "fate:queued": 300, "fate:dead-running": 300, "fate:dead-after-outs": 300, "fate:killed-with-error": 300, "fate:finished-unnoticed": 300, "fate:alive": 300, "fate:during-cleanup": 300, "fate:after-cleanup": 300}},
     },
     "C07": {
         "level": "exploration",
